@@ -30,8 +30,8 @@ func c17(r *Report) {
 		min    int
 	}{
 		{"jwt.Parse", Fn(jwtPkg, "", "Parse"), map[string]string{
-			"vcr/pe.parseJSONObjectOrStringEnvelope":                  "unverified envelope parse (WithVerify(false)); signature verified later by VerifyVP",
-			"(auth/client/iam.HTTPClient).OpenIDConfiguration":        "metadata JWT, key from DID resolver via KeyProvider",
+			"vcr/pe.parseJSONObjectOrStringEnvelope":           "unverified envelope parse (WithVerify(false)); signature verified later by VerifyVP",
+			"(auth/client/iam.HTTPClient).OpenIDConfiguration": "metadata JWT, key from DID resolver via KeyProvider",
 		}, 2},
 		{"jwt.ParseString", Fn(jwtPkg, "", "ParseString"), map[string]string{
 			"(http/tokenV2.middlewareImpl).checkConnectionAuthorization": "internal API bearer token",
@@ -40,15 +40,15 @@ func c17(r *Report) {
 		}, 3},
 		{"jwt.ParseInsecure/Reader/Request/Form/Header", AnyOf(Fn(jwtPkg, "", "ParseInsecure"), Fn(jwtPkg, "", "ParseReader"), Fn(jwtPkg, "", "ParseRequest"), Fn(jwtPkg, "", "ParseForm"), Fn(jwtPkg, "", "ParseHeader")), map[string]string{}, 0},
 		{"jws.Verify", AnyOf(Fn(jwsPkg, "", "Verify"), Fn(jwsPkg, "", "VerifyAuto"), Fn(jwsPkg, "", "VerifySet")), map[string]string{
-			"(*pki.denylistImpl).Update":               "denylist signed with the pinned key (EdDSA constant)",
+			"(*pki.denylistImpl).Update":                  "denylist signed with the pinned key (EdDSA constant)",
 			"network/dag.NewTransactionSignatureVerifier": "DAG transaction signature",
 		}, 2},
 		{"jws.NewVerifier / Verifier.Verify", AnyOf(Fn(jwsPkg, "", "NewVerifier"), Fn(jwsPkg, "Verifier", "Verify")), map[string]string{
-			"crypto.ParseJWS": "compact JWS verification",
+			"crypto.ParseJWS":                      "compact JWS verification",
 			"(vcr/signature/proof.LDProof).Verify": "JSON-LD proof detached JWS",
 		}, 4},
 		{"jwt.WithVerify", AnyOf(Fn(jwtPkg, "", "WithVerify"), Fn(jwtPkg, "", "WithVerifyAuto"), Fn(jwsPkg, "", "WithVerifyAuto")), map[string]string{
-			"crypto.ParseJWT": "WithVerify(true)",
+			"crypto.ParseJWT":                        "WithVerify(true)",
 			"vcr/pe.parseJSONObjectOrStringEnvelope": "WithVerify(false): envelope parse only",
 		}, 2},
 		{"WithKeySet / WithInferAlgorithmFromKey", AnyOf(Fn(jwtPkg, "", "WithKeySet"), Fn(jwsPkg, "", "WithKeySet"), Fn(jwsPkg, "", "WithInferAlgorithmFromKey"), Fn(jwsPkg, "", "WithUseDefault"), Fn(jwsPkg, "", "WithRequireKid")), map[string]string{
@@ -63,11 +63,11 @@ func c17(r *Report) {
 	}
 	// consumers of the generic parser (informational ownership: a new consumer must be reviewed for its key source)
 	r.Own(OwnSpec{ID: "C17.own.ParseJWT-consumers", Op: "call crypto.ParseJWT", Sites: p.CallSites(Fn("crypto", "", "ParseJWT"), true), Min: 5, Owners: map[string]string{
-		"(*vcr/verifier.signatureVerifier).jwtSignature":                       "VC/VP JWT: key resolved from the issuer/holder DID document",
-		"(*vcr/issuer.openidHandler).validateProof":                           "OpenID4VCI proof: key resolved by kid",
+		"(*vcr/verifier.signatureVerifier).jwtSignature":                    "VC/VP JWT: key resolved from the issuer/holder DID document",
+		"(*vcr/issuer.openidHandler).validateProof":                         "OpenID4VCI proof: key resolved by kid",
 		"(*auth/services/oauth.authzServer).parseAndValidateJwtBearerToken": "v1 bearer token: key resolved by kid",
-		"(*auth/services/oauth.authzServer).IntrospectAccessToken":           "own access token: key from own key store",
-		"(auth/api/iam.jar).validate":                                          "authorization request object: key resolved by kid and matched with the client's published key set",
+		"(*auth/services/oauth.authzServer).IntrospectAccessToken":          "own access token: key from own key store",
+		"(auth/api/iam.jar).validate":                                       "authorization request object: key resolved by kid and matched with the client's published key set",
 	}})
 
 	// ---------- (2)+(3)+(4) per consumer
